@@ -70,6 +70,17 @@ Fixpoint h2_final (heads : list h2head) (n1xx : nat) : option (Z * h2head) :=
       end
   end.
 
+(* what httptrace.Got1xxResponse is called with: every HEADERS frame in front of the final one *)
+Fixpoint h2_interim_heads (heads : list h2head) : list (Z * hmap) :=
+  match heads with
+  | h :: ((_ :: _) as r) =>
+      match atoi (hh_status h) with
+      | Some code => (code, fst (h2_header (hh_fields h))) :: h2_interim_heads r
+      | None => []
+      end
+  | _ => []
+  end.
+
 (* processData: what enters the stream's pipe *)
 Definition h2_events (frames : list h2frame) (trailers : bool) : list h2ev :=
   map (fun f => H2Data (fd_data f) (fd_end f)) frames ++ (if trailers then [H2Trailers] else []).
@@ -156,6 +167,16 @@ Fixpoint h3_final (heads : list h3head) (n1xx : nat) : option (Z * h3head) :=
             if 5 <? S n1xx then None else h3_final r (S n1xx)
           else match r with [] => Some (code, h) | _ => None end
       end
+  end.
+
+Fixpoint h3_interim_heads (heads : list h3head) : list (Z * hmap) :=
+  match heads with
+  | h :: ((_ :: _) as r) =>
+      match atoi (h3_status h), h3_header (h3_flds h) with
+      | Some code, Some (hdr, _, _) => (code, hdr) :: h3_interim_heads r
+      | _, _ => []
+      end
+  | _ => []
   end.
 
 (* DATA frames completely received, then FIN *)
